@@ -25,7 +25,7 @@ GUARD = "JSONCONS_VERIF_SIM"
 
 CXX = "clang++"
 COMMON = ["-std=c++17", "-O1", "-g", "-fno-omit-frame-pointer", "-fsized-deallocation", "-D" + GUARD,
-          "-I" + os.path.join(REPO, "include"), "-Wno-deprecated-declarations"]
+          "-I" + os.path.join(REPO, "include"), "-Wno-deprecated-declarations", '-DSIM_REPO_ROOT="/repo"']
 ASAN = ["-fsanitize=address,undefined", "-fno-sanitize-recover=undefined"]
 TSAN = ["-fsanitize=thread"]
 
@@ -472,7 +472,7 @@ CHECKS = {
     "C05": dict(level="exploration", parts=[("iosim", "c05", 14000, 500000)], cap=(600, 3000), timeout=120),
     "C10": dict(level="exploration", parts=[("iosim", "c10", 1400, 14000), ("stacksim", "stack", 264, 1056)], cap=(600, 3000), timeout=300),
     "C15": dict(level="fault_enumeration", parts=[("patchsim", "c15", 2400, 120000)], cap=(600, 3000), timeout=120),
-    "C20": dict(level="exploration", parts=[("threadsim", "c20", 320, 20000)], cap=(600, 3000), timeout=300),
+    "C20": dict(level="exploration", parts=[("threadsim", "c20", 2400, 80000)], cap=(600, 3000), timeout=300),
     "C19": dict(level="fault_enumeration", parts=[("allocsim", "all", 1083 + 57 * 80, 1083 + 57 * 1500)], cap=(600, 3000), timeout=120),
 }
 
